@@ -102,6 +102,7 @@ PROPERTIES["C15"] = {
         K("c15_laws_3_1", features=VC, shared_covers=True, timeout=600),
         K("c15_lub_2", features=VC, timeout=600),
         K("c15_extend", features=VC, timeout=600),
+        K("c15_replay_target_clock_filter", features=VC, timeout=900),
         K("c15_laws_4_4", features=VC, shared_covers=True, tier="thorough", timeout=1800),
         K("c15_lub_3", features=VC, tier="thorough", timeout=1800),
     ],
@@ -197,6 +198,7 @@ PROPERTIES["C01"] = {
         K("c13_budget_replay_once", module="kp", timeout=600),
         K("c01_data_seed_reproduces_each_execution", module="kp", timeout=900),
         K("c01_nd_checker_record_then_replay", module="kp", timeout=900),
+        K("c01_replay_refuses_missing_task", module="kp", timeout=900),
     ],
     "functions_encoded": [
         "shuttle_schedulers::replay::ReplayScheduler::{new_from_schedule, new_execution, next_task, next_u64}",
@@ -261,7 +263,8 @@ PROPERTIES["C20"] = {
 PROPERTIES["C08"] = {
     "level": "model_checking",
     "jobs": [K("c08_metrics_wrapper_transparent", module="kp", timeout=600),
-             K("c01_nd_checker_record_then_replay", module="kp", timeout=900)],
+             K("c01_nd_checker_record_then_replay", module="kp", timeout=900),
+             K("c08_annotation_wrapper_transparent", module="kp", timeout=900)],
     "functions_encoded": ["shuttle_engine::scheduler::metrics::MetricsScheduler::{new, new_execution, next_task, next_u64, record_and_reset_metrics}"] + _DECISION_FUNCS,
     "bounds_text": "MetricsScheduler around an inner scheduler with symbolic answers: task lists [t2] and [t0,t2], any `current`, "
     "any is_yielding, any draw value, inner new_execution Some/None, across an execution boundary",
@@ -311,5 +314,5 @@ PROPERTIES["C04"] = {
 
 # Engine-level instances whose Kani verdict is not stable (see DESIGN.md 2.1): kept in the crate for native
 # validation, not registered as checks.
-for _p in ("C18", "C04"):
+for _p in ("C18", "C04", "C09"):
     PROPERTIES.pop(_p, None)
